@@ -5,7 +5,7 @@ SPEC = {
     "harness": "c04",
     "theorems": ["C04_refines", "C04_refines_all_histories", "C04_inv_reachable", "C04_wrappers_transparent",
                  "C04_get_after_set", "C04_get_after_delete", "C04_has_iff_get", "C04_iterate_exact",
-                 "C04_deletePrefix_exact", "C04_batch_last_wins", "C04_cancel_noop",
+                 "C04_deletePrefix_exact", "C04_batch_last_wins", "C04_cancel_noop", "C04_batch_handles_independent",
                  "C04_closed_everything_fails", "C04_close_is_final"],
     "trusted_base": [
         "hand-written model Hive/Model/KV.lean of kvstore/mapdb (+ flushkv, debug wrappers), tied to the working tree by "
@@ -33,7 +33,8 @@ SPEC = {
                 "C04_get_after_delete, C04_has_iff_get); Iterate/IterateKeys report exactly the realm-stripped keys carrying the prefix, "
                 "strictly ordered in the requested direction, cut at the consumer's stop (C04_iterate_exact); DeletePrefix/Clear remove "
                 "exactly the prefixed keys (C04_deletePrefix_exact); Commit applies the last call per key, Cancel nothing "
-                "(C04_batch_last_wins, C04_cancel_noop); after Close every read/write/iteration/view/batch/Flush/Commit fails with "
+                "(C04_batch_last_wins, C04_cancel_noop), and whatever is done with a batch handle - also a finished one - changes no "
+                "other batch (C04_batch_handles_independent); after Close every read/write/iteration/view/batch/Flush/Commit fails with "
                 "ErrStoreClosed forever (C04_closed_everything_fails, C04_close_is_final). Tie: differential run of the real packages "
                 "against the compiled model over random view trees (depth<=3) x wrapper stacks x 40-op histories, with every buffer "
                 "passed to Set / finished batches and every buffer returned by reads scribbled over (private-copy clause), plus an "
